@@ -233,6 +233,10 @@ pub fn operand_values() -> Vec<(&'static str, Ex)> {
 		("emptyobj", o(vec![])),
 		("obj-a", o(vec![field("a", Vis::Normal, false, Ex::Num(1.0))])),
 		("obj-ab", o(vec![field("a", Vis::Normal, false, Ex::Num(1.0)), field("b", Vis::Hidden, false, Ex::Num(2.0))])),
+		// same number of visible fields as obj-a, another visible name, and a hidden field named like obj-a's
+		("obj-hidden-a-visible-b", o(vec![field("a", Vis::Hidden, false, Ex::Num(1.0)), field("b", Vis::Normal, false, Ex::Num(1.0))])),
+		("arr-of-that", Ex::Arr(vec![o(vec![field("a", Vis::Hidden, false, Ex::Num(1.0)), field("b", Vis::Normal, false, Ex::Num(1.0))])])),
+		("arr-obj-a", Ex::Arr(vec![o(vec![field("a", Vis::Normal, false, Ex::Num(1.0))])])),
 		("func", func(&["x"], var("x"))),
 		("error", Ex::Error(Box::new(s("e")))),
 	]
